@@ -261,6 +261,11 @@ func (s *BuiltinType) FilterJson(data json.RawMessage, _ *TypeLookup) (json.RawM
 	case KindInt:
 		var tmp int64
 		if err := json.Unmarshal(data, &tmp); err != nil {
+			if !bytes.ContainsAny(data, ".eE") {
+				// An integer which is out of range.  It must not go
+				// through float64, which would round it into range.
+				return data, true, err
+			}
 			var tmp float64
 			if err := json.Unmarshal(data, &tmp); err != nil {
 				return data, true, err
